@@ -7,7 +7,7 @@ from collections import Counter
 
 import asyncstdlib as A
 
-from ..loop import CTX, drive, Cancel
+from ..loop import CTX, drive, Cancel, Suspend
 from ..probes import Item, SrcState, Plan, make_source
 from .C07 import TOOLS, TOOL_NAMES, CountIt, _uid, STOP
 
@@ -17,8 +17,9 @@ ANCHORS = ["asynctools.py", "_core.py"]
 RULE = ("random block programs inside `async with scoped_iter(underlying)`: sequences of {next on a handle, apply tool T "
         "(27 tools/aggregations that close their inputs) to a handle, take j items, then close / exhaust / abandon "
         "it, open a nested scope over the current handle (depth <= 3) with its own program, raise from the block} ; "
-        "exit by fall-through, by an exception raised after EVERY operation position, and by Cancel thrown at EVERY "
-        "suspension point of the block (underlying suspends in __anext__); underlying in {async generator, class "
+        "exit by fall-through, by an exception raised at EVERY operation position (rotating over Exception, BaseException, "
+        "GeneratorExit, KeyboardInterrupt), and by a Cancel as well as a GeneratorExit (coroutine.close() / closing an "
+        "enclosing async generator) thrown at EVERY suspension point of the block (underlying suspends in __anext__); underlying in {async generator, class "
         "with aclose, class without aclose, sync iterator}. Oracle: the shared synchronous iterator model of C07 (stdlib tools "
         "on one iter(list)) for what each tool sees, plus lifecycle counts on the underlying probe: aclose count is "
         "0 at every point inside the block and after an inner scope's exit, exactly 1 after the outermost exit "
@@ -36,11 +37,21 @@ class BlockError(Exception):
     pass
 
 
+class BaseBlockError(BaseException):
+    pass
+
+
+RAISE_TYPES = {"Exception": BlockError, "BaseException": BaseBlockError, "GeneratorExit": GeneratorExit,
+               "KeyboardInterrupt": KeyboardInterrupt}
+
+
 def gen_block(rng, depth, maxops=5):
     ops = []
     for _ in range(rng.randint(1, maxops)):
         r = rng.random()
-        if r < 0.2:
+        if r < 0.12:
+            ops.append(["pause"])
+        elif r < 0.3:
             ops.append(["next"])
         elif r < 0.8 or depth >= 3:
             ops.append(["tool", rng.choice(TOOL_NAMES), rng.randint(0, 3), rng.choice(["close", "close", "exhaust", "abandon"])])
@@ -65,7 +76,7 @@ def cases(tier, seed, shard, nshards):
                "outer_use": rng.random() < 0.3}
 
 
-def execute(case, raise_at=None, cancel_at=None, susp=0):
+def execute(case, raise_at=None, cancel_at=None, susp=0, raise_type="Exception", throw="Cancel"):
     CTX.reset()
     keys = case["keys"]
     st = SrcState(0, [Item(k, (0, i), truth=k != 0) for i, k in enumerate(keys)], Plan(susp), log=False)
@@ -77,7 +88,10 @@ def execute(case, raise_at=None, cancel_at=None, susp=0):
     info = {"ops": 0, "max_depth": 0, "inner_exits": 0, "tools": 0}
     dead_handles = []
     exact = cancel_at is None  # under cancellation only the lifecycle is judged
-    cancel_exc = Cancel() if cancel_at is not None else None
+    # what is thrown in at a suspension point: a cancellation, or GeneratorExit as coroutine.close() /
+    # closing an enclosing async generator would
+    cancel_exc = (Cancel() if throw == "Cancel" else GeneratorExit()) if cancel_at is not None else None
+    block_exc = RAISE_TYPES[raise_type](raise_at)
 
     def fail(key, msg):
         viols.append({"key": key, "msg": f"{head}: {msg}"[:1300]})
@@ -100,8 +114,12 @@ def execute(case, raise_at=None, cancel_at=None, susp=0):
                 for op in block:
                     info["ops"] += 1
                     if raise_at is not None and info["ops"] == raise_at:
-                        raise BlockError(raise_at)
-                    if op[0] == "next":
+                        raise block_exc
+                    if op[0] == "pause":
+                        # the block itself waits for something (only when the scenario suspends at all)
+                        if susp:
+                            await Suspend("block")
+                    elif op[0] == "next":
                         got = await anext_of(h)
                         if exact:
                             want = _uid(next(model, STOP))
@@ -114,7 +132,7 @@ def execute(case, raise_at=None, cancel_at=None, susp=0):
                         if tkind == "agg":
                             try:
                                 got = ("ret", _uid(await amake(h)))
-                            except (Cancel, BlockError):
+                            except (Cancel, BlockError, BaseBlockError, GeneratorExit, KeyboardInterrupt):
                                 raise
                             except BaseException as exc:  # noqa: BLE001
                                 got = ("raise", type(exc).__name__)
@@ -167,10 +185,13 @@ def execute(case, raise_at=None, cancel_at=None, susp=0):
         try:
             await run_block(case["block"], under, 1)
             outcome["exit"] = "normal"
-        except BlockError:
-            outcome["exit"] = "exception"
-        except Cancel as exc:
-            outcome["exit"] = "cancel" if exc is cancel_exc else "foreign-cancel"
+        except BaseException as exc:  # noqa: BLE001
+            if exc is block_exc:
+                outcome["exit"] = "exception"
+            elif exc is cancel_exc:
+                outcome["exit"] = "cancel"
+            else:
+                outcome["exit"] = f"other:{type(exc).__name__}"
         # ---- after the outermost exit -------------------------------------------------------
         if closable:
             if case["flav"] == "async_class" and st.closed != 1:
@@ -180,7 +201,15 @@ def execute(case, raise_at=None, cancel_at=None, susp=0):
                 fail("scoped_iter/close-count", f"underlying generator still open after the outermost exit ({outcome['exit']})")
             pos = st.pos
             for k, h in enumerate(dead_handles):
-                got = await anext_of(h)
+                try:
+                    got = await anext_of(h)
+                except RuntimeError as exc:
+                    # CPython leaves a generator "running" when GeneratorExit went through its pending
+                    # __anext__; such a handle cannot yield anything either
+                    if throw == "GeneratorExit" and "already running" in str(exc):
+                        got = STOP
+                    else:
+                        raise
                 if got != STOP or st.pos != pos:
                     fail("scoped_iter/handle-alive-after-exit", f"handle of scope #{k} gave {got} after its scope ended")
                     break
@@ -190,6 +219,7 @@ def execute(case, raise_at=None, cancel_at=None, susp=0):
         viols.append({"key": "scoped_iter/foreign-suspension", "msg": CTX.foreign[0]})
     info["exit"] = outcome.get("exit")
     info["suspensions"] = CTX.suspensions
+    info["owners"] = list(CTX.token_owners)
     return viols, info
 
 
@@ -205,6 +235,10 @@ def run_case(case, stats: Counter):
         evals += 1
         stats["blocks_executed"] += 1
         stats[f"exit_{info['exit']}"] += 1
+        if kw.get("raise_type"):
+            stats[f"left_by_{kw['raise_type']}"] += 1
+        if kw.get("throw"):
+            stats["left_by_thrown_GeneratorExit"] += 1
         stats["tool_applications"] += info["tools"]
         stats["inner_scope_exits"] += info["inner_exits"]
         stats[f"depth_{info['max_depth']}"] += 1
@@ -216,17 +250,25 @@ def run_case(case, stats: Counter):
         return info
 
     one()
+    kinds = list(RAISE_TYPES)
     for k in range(1, nops + 1):
-        one(raise_at=k)
+        # the way the block is left rotates over Exception / BaseException / GeneratorExit / KeyboardInterrupt
+        one(raise_at=k, raise_type=kinds[(k + len(case["keys"])) % len(kinds)])
     if case["flav"] in ("async_class", "async_gen", "async_class_bare"):
         info = one(susp=1)
         for i in range(1, info["suspensions"] + 1):
             one(susp=1, cancel_at=i)
+            if info["owners"][i - 1] == "block":
+                # coroutine.close() while the block itself is waiting.  (Not at suspensions inside a pending
+                # __anext__ of an async generator: CPython 3.12.1 then leaves that generator "running" and
+                # any later aclose() of it fails - an interpreter defect, not the library's.)
+                one(susp=1, cancel_at=i, throw="GeneratorExit")
     return {"violations": viols_all, "evals": evals, "sigs": sigs}
 
 
 def finish(stats, tier):
-    for need in ("exit_normal", "exit_exception", "exit_cancel", "inner_scope_exits", "depth_2", "depth_3", "tool_applications"):
+    for need in ("exit_normal", "exit_exception", "exit_cancel", "inner_scope_exits", "depth_2", "depth_3", "tool_applications",
+                 "left_by_GeneratorExit", "left_by_BaseException", "left_by_thrown_GeneratorExit"):
         if not stats.get(need):
             return f"deciding counter {need} is zero"
     return None
